@@ -173,6 +173,59 @@ def run(oc, tier, seed, model_available, escalate):
             oc.distinct.add((bs, tuple(map(tuple, copies))))
         if idx % max(1, len(cs) // 5) == 0:
             oc.sample({"request": lines[-1], "impl_reply": rep})
+    # ---- through the command line: replica folders given in an arbitrary (not alphabetical) order - "order matters": ties and
+    # all-different offsets take the byte of the FIRST GIVEN copy
+    import os
+    import shutil
+    from pyFileFixity import replication_repair as rr_
+    rngc = random.Random(seed * 7919 + 606)
+    dcli = os.path.join(common.scratch(), "c06cli")
+    ncli = (25 if tier == "quick" else 300) * (2 if escalate else 1)
+    for _ in range(ncli):
+        shutil.rmtree(dcli, ignore_errors=True)
+        k = rngc.choice([3, 4, 4, 5, 6])
+        names = rngc.sample(["vault", "backup", "archive", "disk2", "disk1", "copy10", "copy2", "copy1", "Zeta", "alpha", "m"], k)
+        ln = rngc.choice([1, 3, 8, 20])
+        base = [rngc.randrange(256) for _ in range(ln)]
+        copies = []
+        for i in range(k):
+            c = list(base)
+            for j in range(ln):
+                r = rngc.random()
+                if r < 0.35:
+                    c[j] = rngc.choice([65, 66, 67])      # few values: ties and all-different columns are frequent
+            if rngc.random() < 0.2:
+                c = c[:rngc.randint(0, ln)]
+            copies.append(c)
+        dirs = []
+        for nm, c in zip(names, copies):
+            dd = os.path.join(dcli, nm)
+            os.makedirs(dd)
+            with open(os.path.join(dd, "f.bin"), "wb") as f:
+                f.write(bytes(c))
+            dirs.append(dd)
+        outd = os.path.join(dcli, "out")
+        cwd = os.getcwd()
+        os.chdir(dcli)
+        try:
+            with common.captured():
+                rcm = rr_.main(["-i"] + dirs + ["-o", outd, "--silent", "-f"])
+        except BaseException as ex:
+            rcm = "exception:%s" % type(ex).__name__
+        finally:
+            os.chdir(cwd)
+        op = os.path.join(outd, "f.bin")
+        got = open(op, "rb").read() if os.path.exists(op) else None
+        sout, src, _serrs = spec_vote(copies)
+        oc.oracle_cases += 1
+        oc.count("cli: folders in given order")
+        if got != bytes(sout) or (rcm not in (0, 1)) or (int(rcm) != (1 if src else 0)):
+            oc.violations.append({"input": {"folders_in_given_order": names, "copies": [bytes(c).hex() for c in copies]},
+                                  "impl": {"out": None if got is None else got.hex(), "exit": str(rcm)},
+                                  "required": {"out": bytes(sout).hex(), "exit": 1 if src else 0},
+                                  "what": "`pff dup` on folders given in this order does not give the per-offset plurality with the first given copy "
+                                          "breaking ties"})
+    shutil.rmtree(dcli, ignore_errors=True)
     if tier == "thorough":
         oc.exhaustive = False
         oc.notes.append("exhaustive sub-space enumerated completely: <=4 copies x lengths<=3 x alphabet{1,2} x bs 1..4 (4-copy total length <= 9)")
